@@ -4,9 +4,16 @@
   Part I (geometry, `CR.Geom`): each containment test denotes the set the property text names
     (disc of radius r, l-by-w box at its pose, vertex ring, union), for ALL rational parameters.
   Part II (index, `CR.Index`): the spatial index mirrors the lanelet polygons (`Sync`) after every construction route
-    and every admissible operation sequence (no bound on lengths), and on a synchronised index
-    `find_lanelet_by_position` / `find_lanelet_by_shape` return exactly the scan of the current lanelets with the
-    geometric predicate (`within` / `meets` are parameters: GEOS is not modelled).
+    and every admissible operation sequence (no bound on lengths); on a synchronised index
+    `find_lanelet_by_position` / `find_lanelet_by_shape`, evaluated as the code does (envelope query of the tree, exact
+    predicate, id map), return as a SET (each id once; no order claimed) the lanelets whose polygon
+    `right ++ reversed left` is within the tolerance of the point / meets the exported geometry of the shape, with the
+    exact predicates `withinTol tol` (any `tol ≥ 0`), `ringsMeet`, `discMeetsRing` of Part II b — no geometric
+    parameter is left open in `C06_find_position`, `C06_find_shape`, `C06_contains_points`.  (`C06_findShape_group`
+    and Part III keep `meets` as a parameter: they are list logic and hold for every predicate, in particular for
+    `ringMeets`.)  GEOS itself is not modelled: that `intersects` / `dwithin` compute these predicates is compared by
+    the correspondence on exact-grid inputs.
+    Changing a lanelet that is already in a network is NOT modelled (property C11).
   Part III (obstacles): `get_obstacles`, `map_obstacles_to_lanelets`, `filter_obstacles_in_network` are that same scan.
 
   Partial clauses (full statements kept as `def …_full : Prop`):
@@ -40,12 +47,14 @@ theorem C06_disc_norm (c : Pt) (r : Rat) (p : Pt) (nrm : Rat) (h0 : 0 ≤ nrm) (
 example : inDisc ⟨0, 0⟩ 5 ⟨3, 4⟩ = true ∧ inDisc ⟨0, 0⟩ 5 ⟨3, 4 + 1 / 1000⟩ = false ∧ inDisc ⟨0, 0⟩ (-1) ⟨0, 0⟩ = false := by
   decide +kernel
 
-/-- A shape group contains a point iff one of its members does. -/
+/-- A shape group contains a point iff one of its members does.
+    (definitional: documents the model, carries no proof content) -/
 theorem C06_group_union (ss : List Prim) (p : Pt) :
     (Shape.group ss).contains p = true ↔ ∃ s ∈ ss, s.contains p = true := by
   simp [Shape.contains]
 
-/-- The same for what a lanelet polygon meets (`Lanelet.get_obstacles` on a `ShapeGroup` occupancy). -/
+/-- The same for what a lanelet polygon meets (`Lanelet.get_obstacles` on a `ShapeGroup` occupancy).
+    (definitional: documents the model, carries no proof content) -/
 theorem C06_hits_group (meets : List Pt → Prim → Bool) (ring : List Pt) (ss : List Prim) :
     hits meets ring (.group ss) = true ↔ ∃ s ∈ ss, meets ring s = true := by
   simp [hits]
@@ -64,7 +73,8 @@ theorem C06_box_eq_quad (l w : Rat) (ctr : Pt) (c s : Rat) (p : Pt) (hl : 0 < l)
   · rintro ⟨⟨⟨h1, h2⟩, h3⟩, h4⟩; exact ⟨⟨⟨by linarith, by linarith⟩, by linarith⟩, by linarith⟩
   · rintro ⟨⟨⟨h1, h2⟩, h3⟩, h4⟩; exact ⟨⟨⟨by linarith, by linarith⟩, by linarith⟩, by linarith⟩
 
-/-- The four vertices used above are the ones `Rectangle.vertices` exports (first = last closes the ring). -/
+/-- The four vertices used above are the ones `Rectangle.vertices` exports (first = last closes the ring).
+    (definitional: documents the model, carries no proof content) -/
 theorem C06_rectVerts (l w : Rat) (ctr : Pt) (c s : Rat) :
     rectVerts l w ctr c s =
       [place ctr c s ⟨-(l / 2), -(w / 2)⟩, place ctr c s ⟨-(l / 2), w / 2⟩, place ctr c s ⟨l / 2, w / 2⟩,
@@ -113,16 +123,18 @@ theorem C06_poly_bbox_redundant (vs : List Pt) (p : Pt) : polyContains vs p = in
 example : polyContains [⟨0, 0⟩, ⟨4, 0⟩, ⟨0, 4⟩] ⟨2, 2⟩ = true ∧ polyContains [⟨0, 0⟩, ⟨4, 0⟩, ⟨0, 4⟩] ⟨1, 1⟩ = true ∧
     polyContains [⟨0, 0⟩, ⟨4, 0⟩, ⟨0, 4⟩] ⟨2 + 1 / 256, 2⟩ = false := by decide +kernel
 
-/-- Containment test = denoted set, for circles and polygons. -/
+/-- Containment test = denoted set, for circles (definitional: documents the model, carries no proof content) … -/
 theorem C06_contains_denotes_circ (r : Rat) (c p : Pt) : (Prim.circ r c).contains p = (Prim.circ r c).denotes p := rfl
 
+/-- … and for polygons (content: the bounding-box prefilter is redundant, `C06_poly_bbox_redundant`). -/
 theorem C06_contains_denotes_poly (vs : List Pt) (p : Pt) : (Prim.poly vs).contains p = (Prim.poly vs).denotes p :=
   C06_poly_bbox_redundant vs p
 
-/-- Exported geometry = containment test, for rectangles and polygons. -/
+/-- Exported geometry = containment test, for rectangles (definitional: documents the model, carries no proof content) … -/
 theorem C06_export_rect (l w : Rat) (ctr : Pt) (c s : Rat) (p : Pt) :
     (Prim.rect l w ctr c s).exported p = (Prim.rect l w ctr c s).contains p := rfl
 
+/-- … and for polygons (content: `C06_poly_bbox_redundant`). -/
 theorem C06_export_poly (vs : List Pt) (p : Pt) : (Prim.poly vs).exported p = (Prim.poly vs).contains p :=
   (C06_poly_bbox_redundant vs p).symm
 
@@ -173,35 +185,20 @@ theorem C06_translate_ring (vs : List Pt) (p t : Pt) : inRing (vs.map (·.add t)
 
 /-! ## Part II — the index -/
 
+/-! ### What `Sync` says and what it does not
+
+  `Buffered n`: `_buffered_polygons` is the list of (id, polygon object) of the lanelets, ids and polygon objects
+  pairwise distinct.  `Fresh n`: tree and reverse map are the ones `_create_strtree` builds from the CURRENT
+  `_buffered_polygons` — by construction true right after a rebuild; the content of the theorems below is which
+  operations rebuild, which keep / lose freshness (`C06_witness_stale`), and that the reverse map then inverts.
+  Assumed, not proved: distinct live Python objects have distinct `id()` (`Adm`: an added lanelet brings a polygon
+  object that is not already in the network; copies hand out fresh objects, `Function.Injective f`).
+  NOT covered: changing a lanelet that is already in a network (`Lanelet.translate_rotate`, vertex setters,
+  `LaneletNetwork.translate_rotate`): the model has no such operation, so nothing here says that the index follows
+  such a mutation.  That is the subject of property C11 (derived data never goes stale), not of C06. -/
+
 /-- `LaneletNetwork()` starts synchronised (an empty tree, not "no tree"). -/
 theorem C06_sync_empty : Sync Net.empty := sync_empty
-
-/-- Admissible operation in a state: a lanelet that is added brings a polygon object of its own (Python: a live
-    object has a unique `id`); a copy yields fresh distinct objects. -/
-def Adm (n : Net) : Op → Prop
-  | .add l _ => l.poly.addr ∉ n.lanelets.map (·.poly.addr)
-  | .remove _ _ => True
-  | .addFrom ls => (ls.map (·.poly.addr)).Nodup ∧ ∀ l ∈ ls, l.poly.addr ∉ n.lanelets.map (·.poly.addr)
-  | .copy f => Function.Injective f
-
-/-- Every operation of a sequence is admissible in the state it is applied to. -/
-def AdmSeq : Net → List Op → Prop
-  | _, [] => True
-  | n, o :: os => Adm n o ∧ ∀ n', step n o = .ok n' → AdmSeq n' os
-
-/-- The operation ends with a rebuilt index (or changes nothing). -/
-def rebuilds : Op → Bool
-  | .add _ r => r
-  | .remove _ r => r
-  | .addFrom _ => true
-  | .copy _ => true
-
-/-- The operation certainly rebuilds the index in state `n`. -/
-def refreshes (n : Net) : Op → Prop
-  | .add l r => r = true ∧ l.id ∉ n.lanelets.map (·.id)
-  | .remove _ r => r = true
-  | .addFrom _ => True
-  | .copy _ => True
 
 /-- One step: never an error; `Buffered` is kept; a rebuilding step keeps `Sync`; a refreshing step establishes it. -/
 theorem C06_step (n : Net) (o : Op) (hb : Buffered n) (ha : Adm n o) :
@@ -246,32 +243,6 @@ theorem C06_sync_default (ops : List Op) : ∀ (n : Net), Sync n → AdmSeq n op
       (fun o' ho' => hr o' (List.mem_cons_of_mem _ ho'))
     exact ⟨n2, by simp only [run, h1, h2], hs2⟩
 
-theorem run_append (ops : List Op) : ∀ (n n1 : Net) (o : Op), run n ops = .ok n1 →
-    run n (ops ++ [o]) = step n1 o := by
-  induction ops with
-  | nil => intro n n1 o h; simp only [run] at h; cases h; simp only [List.nil_append, run]; cases step n o <;> rfl
-  | cons o' os ih =>
-    intro n n1 o h
-    simp only [List.cons_append, run] at h ⊢
-    cases hs : step n o' with
-    | error e => rw [hs] at h; cases h
-    | ok n2 => rw [hs] at h; simp only []; exact ih n2 n1 o h
-
-theorem admSeq_append (ops : List Op) : ∀ (n n1 : Net) (o : Op), AdmSeq n (ops ++ [o]) → run n ops = .ok n1 → Adm n1 o := by
-  induction ops with
-  | nil => intro n n1 o h hr; simp only [run] at hr; cases hr; exact h.1
-  | cons o' os ih =>
-    intro n n1 o h hr
-    simp only [run] at hr
-    cases hs : step n o' with
-    | error e => rw [hs] at hr; cases hr
-    | ok n2 => rw [hs] at hr; exact ih n2 n1 o (h.2 n2 hs) hr
-
-theorem admSeq_prefix (ops : List Op) : ∀ (n : Net) (o : Op), AdmSeq n (ops ++ [o]) → AdmSeq n ops := by
-  induction ops with
-  | nil => intro _ _ _; trivial
-  | cons o' os ih => intro n o h; exact ⟨h.1, fun n' hn' => ih n' o (h.2 n' hn')⟩
-
 /-- Deferred rebuild (`rtree=False` anywhere in the sequence): the index is synchronised as soon as one operation
     that rebuilds follows — `remove_lanelet(·, rtree=True)`, `add_lanelet` of a new id with `rtree=True`,
     `add_lanelets_from_network`, a copy. -/
@@ -304,50 +275,7 @@ theorem C06_sync_copy (n : Net) (f : Nat → Nat) (hf : Function.Injective f) (h
 
 theorem C06_copy_lanelets (n : Net) (f : Nat → Nat) :
     (copyNet f n).lanelets.map (fun l => (l.id, l.poly.ring)) = n.lanelets.map (fun l => (l.id, l.poly.ring)) := by
-  simp [copyNet, createStrtree, relabelL, List.map_map, Function.comp_def]
-
-/-- On a synchronised index `find_lanelet_by_position` returns, for every point, exactly the lanelets whose polygon
-    satisfies the predicate — nothing omitted, nothing mis-mapped, nothing twice, no `KeyError`. -/
-theorem C06_find_eq_scan (within : List Pt → Pt → Bool) (n : Net) (hs : Sync n) (pts : List Pt) :
-    findByPosition within n pts =
-      .ok (pts.map (fun p => (n.lanelets.filter (fun l => within l.poly.ring p)).map (·.id))) := by
-  unfold findByPosition
-  rw [tree_sync hs]
-  exact mapM_ok _ _ _ (fun p _ => scan_sync hs (fun ring => within ring p))
-
-/-- The same for `find_lanelet_by_shape` with a Circle / Polygon / Rectangle. -/
-theorem C06_findShape_eq_scan (meets : List Pt → Prim → Bool) (n : Net) (hs : Sync n) (s : Prim) :
-    findByShape meets n (.prim s) = .ok ((n.lanelets.filter (fun l => meets l.poly.ring s)).map (·.id)) := by
-  unfold findByShape findPrim
-  rw [tree_sync hs]
-  exact scan_sync hs (fun ring => meets ring s)
-
-theorem mem_appendNew (res ids : List Int) (i : Int) : i ∈ appendNew res ids ↔ i ∈ res ∨ i ∈ ids := by
-  induction ids generalizing res with
-  | nil => simp [appendNew]
-  | cons a as ih =>
-    simp only [appendNew, ih, List.mem_cons]
-    by_cases h : a ∈ res
-    · simp only [h, if_true]
-      constructor
-      · rintro (h1 | h1) <;> [exact Or.inl h1; exact Or.inr (Or.inr h1)]
-      · rintro (h1 | h1 | h1)
-        · exact Or.inl h1
-        · subst h1; exact Or.inl h
-        · exact Or.inr h1
-    · simp only [h, if_false, List.mem_append, List.mem_singleton]
-      tauto
-
-theorem nodup_appendNew (res ids : List Int) (h : res.Nodup) : (appendNew res ids).Nodup := by
-  induction ids generalizing res with
-  | nil => simpa [appendNew]
-  | cons a as ih =>
-    simp only [appendNew]
-    apply ih
-    by_cases ha : a ∈ res
-    · simpa [ha] using h
-    · simp only [ha, if_false]
-      exact List.nodup_append.mpr ⟨h, by simp, by intro x hx y hy; simp at hy; subst hy; intro hxy; exact ha (hxy ▸ hx)⟩
+  simp [copyNet, createStrtree, relabelL, Lanelet.poly, List.map_map, Function.comp_def]
 
 /-- A ShapeGroup query on a synchronised index returns, each once, exactly the lanelets whose polygon meets
     SOME member of the group (the group denotes the union of its shapes), and never fails. -/
@@ -362,7 +290,7 @@ theorem C06_findShape_group (meets : List Pt → Prim → Bool) (n : Net) (hs : 
     | nil => intro res h; exact ⟨res, rfl, h, by simp⟩
     | cons s ss ih =>
       intro res h
-      have hp := C06_findShape_eq_scan meets n hs s
+      have hp := findShape_eq_scan meets n hs s
       simp only [findByShape] at hp
       simp only [findGroup, hp]
       obtain ⟨r, hr, hnd, hmem⟩ := ih _ (nodup_appendNew res _ h)
@@ -382,24 +310,93 @@ theorem C06_findShape_group (meets : List Pt → Prim → Bool) (n : Net) (hs : 
   obtain ⟨r, hr, hnd, hmem⟩ := key ss [] List.nodup_nil
   exact ⟨r, hr, hnd, by intro i; rw [hmem]; simp⟩
 
+/-- The polygon of a lanelet is its right boundary followed by the reversed left boundary.
+    (definitional: documents the model `Lanelet.poly` / `laneletRing`, carries no proof content; the correspondence
+    sends the two boundary polylines to the model, which builds the ring from them.) -/
+theorem C06_lanelet_ring (l : Lanelet) : l.poly.ring = l.right ++ l.left.reverse ∧ l.poly.addr = l.addr := ⟨rfl, rfl⟩
+
+/-- `Lanelet.contains_points`: for an admissible point array (at least two points) the answer is, point by point,
+    membership in the closed polygon ring `right ++ reversed left` (boundary included; the bounding-box prefilter of
+    `Polygon.contains_point` never changes it); a shorter array is refused by the assertion. -/
+theorem C06_contains_points (l : Lanelet) (pts : List Pt) :
+    l.containsPoints pts = if pts.length < 2 then .error .assert else
+      .ok (pts.map (fun p => inRing (l.right ++ l.left.reverse) p)) := by
+  unfold Lanelet.containsPoints
+  split
+  · rfl
+  · simp only [C06_poly_bbox_redundant]; rfl
+
+/-- `bbox_sound`: the envelope test by which `STRtree.query` preselects candidates is implied by the exact predicate
+    (polygons that meet have overlapping bounding boxes; a polygon point within `tol ≥ 0` of the query point puts the
+    point into the expanded box), so tree query + exact test = exact test, for every query shape and tolerance. -/
+theorem C06_tree_prefilter_sound :
+    (∀ (A : List Pt) (s : Prim), treeMeets A s = ringMeets A s) ∧
+    (∀ (tol : Rat), 0 ≤ tol → ∀ (A : List Pt) (p : Pt), treeWithin tol A p = withinTol tol A p) :=
+  ⟨treeMeets_eq, treeWithin_eq⟩
+
+/-- `find_lanelet_by_position` on a synchronised index, with the code's evaluation (tree query with
+    `dwithin(·, tol)`, then the id map) and any tolerance `tol ≥ 0` (the code: 1e-15): no error, one answer per point,
+    and each answer is — as a SET, each id once; `STRtree.query` promises no order, the model's tree order is not
+    claimed — the lanelets whose polygon `right ++ reversed left` is within `tol` of the point. -/
+theorem C06_find_position (tol : Rat) (htol : 0 ≤ tol) (n : Net) (hs : Sync n) (pts : List Pt) :
+    ∃ r, findByPosition (treeWithin tol) n pts = .ok r ∧
+      List.Forall₂ (fun p ids => ids.Nodup ∧
+        ∀ i, i ∈ ids ↔ ∃ l ∈ n.lanelets, l.id = i ∧ withinTol tol (l.right ++ l.left.reverse) p = true) pts r := by
+  refine ⟨_, find_eq_scan (treeWithin tol) n hs pts, ?_⟩
+  rw [List.forall₂_map_right_iff]
+  apply List.forall₂_same.mpr
+  intro p _
+  have := scanIds_spec hs.1 (fun l => treeWithin tol l.poly.ring p)
+  simp only [treeWithin_eq tol htol] at this ⊢
+  exact this
+
+/-- What "within `tol`" means for the answer, between the two exact sets: every lanelet whose polygon CONTAINS the
+    point is reported (whatever `tol ≥ 0`), and every reported lanelet has a polygon point within distance `tol` of the
+    query point (squared: `d2 q p ≤ tol²`).  For `tol = 0` the two bounds coincide (`C06_withinTol_zero`). -/
+theorem C06_find_position_sandwich (tol : Rat) (A : List Pt) (p : Pt) :
+    (inRing A p = true → withinTol tol A p = true) ∧
+    (withinTol tol A p = true → ∃ q, inRing A q = true ∧ d2 q p ≤ tol * tol) :=
+  ⟨withinTol_of_inRing tol A p, withinTol_sound tol A p⟩
+
+/-- `find_lanelet_by_shape(Rectangle | Circle | Polygon)` on a synchronised index, with the code's evaluation (tree
+    query by envelope, then `intersects`, then the id map): no error, and the answer is — as a set, each id once — the
+    lanelets whose polygon `right ++ reversed left` meets the exported geometry of the shape: `ringsMeet` with the
+    vertex ring of a polygon / the four vertices of a rectangle (= its box, `C06_rect_ring_eq_box`), `discMeetsRing`
+    with the disc of radius r/2 for a circle (the code as it is; known finding, the property asks for radius r). -/
+theorem C06_find_shape (n : Net) (hs : Sync n) (s : Prim) :
+    ∃ r, findByShape treeMeets n (.prim s) = .ok r ∧ r.Nodup ∧
+      ∀ i, i ∈ r ↔ ∃ l ∈ n.lanelets, l.id = i ∧ ringMeets (l.right ++ l.left.reverse) s = true := by
+  refine ⟨_, findShape_eq_scan treeMeets n hs s, ?_⟩
+  have := scanIds_spec hs.1 (fun l => treeMeets l.poly.ring s)
+  simp only [treeMeets_eq] at this ⊢
+  exact this
+
+/-- (definitional: unfolds `ringMeets`, carries no proof content) what "meets the exported geometry" is per shape kind. -/
+theorem C06_ringMeets_cases (A : List Pt) :
+    (∀ l w ctr c s, ringMeets A (.rect l w ctr c s) = ringsMeet A (rectVerts l w ctr c s)) ∧
+    (∀ r ctr, ringMeets A (.circ r ctr) = discMeetsRing ctr (r / 2) A) ∧
+    (∀ vs, ringMeets A (.poly vs) = ringsMeet A vs) := ⟨fun _ _ _ _ _ => rfl, fun _ _ => rfl, fun _ => rfl⟩
+
 /-- End to end: a network built from scratch by any admissible sequence of rebuilding operations answers position
-    queries by the scan of its current lanelets. -/
-theorem C06_lookup_after_ops (within : List Pt → Pt → Bool) (ops : List Op) (ha : AdmSeq Net.empty ops)
+    queries with the set of its current lanelets within the tolerance. -/
+theorem C06_lookup_after_ops (tol : Rat) (htol : 0 ≤ tol) (ops : List Op) (ha : AdmSeq Net.empty ops)
     (hr : ∀ o ∈ ops, rebuilds o = true) (pts : List Pt) :
-    ∃ n, run Net.empty ops = .ok n ∧
-      findByPosition within n pts = .ok (pts.map (fun p => (n.lanelets.filter (fun l => within l.poly.ring p)).map (·.id))) := by
+    ∃ n r, run Net.empty ops = .ok n ∧ findByPosition (treeWithin tol) n pts = .ok r ∧
+      List.Forall₂ (fun p ids => ids.Nodup ∧
+        ∀ i, i ∈ ids ↔ ∃ l ∈ n.lanelets, l.id = i ∧ withinTol tol (l.right ++ l.left.reverse) p = true) pts r := by
   obtain ⟨n, h, hs⟩ := C06_sync_default ops Net.empty sync_empty ha hr
-  exact ⟨n, h, C06_find_eq_scan within n hs pts⟩
+  obtain ⟨r, hr', hf⟩ := C06_find_position tol htol n hs pts
+  exact ⟨n, r, h, hr', hf⟩
 
 /-- Non-vacuity / the hypotheses matter: after `add_lanelet(l, rtree=False)` on an empty network the lanelet is in the
     network but the (stale) index does not report it. -/
 theorem C06_witness_stale :
-    let l : Lanelet := ⟨7, ⟨1, []⟩⟩
+    let l : Lanelet := ⟨7, 1, [], []⟩
     let n := (addLanelet Net.empty l false).1
     Buffered n ∧ n.lanelets.map (·.id) = [7] ∧ findByPosition (fun _ _ => true) n [⟨0, 0⟩] = .ok [[]] := by
   refine ⟨buffered_add _ false sync_empty.1 (by simp [Net.empty]), by decide, by decide⟩
 
-example : AdmSeq Net.empty [.add ⟨7, ⟨1, []⟩⟩ true, .add ⟨8, ⟨2, []⟩⟩ false, .copy (· + 10), .remove 7 true] := by
+example : AdmSeq Net.empty [.add ⟨7, 1, [], []⟩ true, .add ⟨8, 2, [], []⟩ false, .copy (· + 10), .remove 7 true] := by
   refine ⟨by simp [Adm, Net.empty], fun n1 h1 => ⟨?_, fun n2 h2 => ⟨?_, fun n3 h3 => ⟨trivial, fun _ _ => trivial⟩⟩⟩⟩
   · cases h1; show (2 : Nat) ∉ _; decide
   · intro a b h; simpa using h
@@ -498,43 +495,11 @@ example : ringsMeet [⟨0, 0⟩, ⟨4, 0⟩, ⟨4, 2⟩, ⟨0, 2⟩] [⟨4, 1⟩
     discMeetsRing ⟨6, 1⟩ 2 [⟨0, 0⟩, ⟨4, 0⟩, ⟨4, 2⟩, ⟨0, 2⟩] = true ∧                               -- tangent disc
     discMeetsRing ⟨6, 1⟩ (2 - 1 / 256) [⟨0, 0⟩, ⟨4, 0⟩, ⟨4, 2⟩, ⟨0, 2⟩] = false := by decide +kernel
 
-/-- `find_lanelet_by_position` with the exact predicate: the lanelets whose polygon is within `tol` of the point; for
-    tolerance 0 exactly those whose polygon contains it. -/
-theorem C06_find_position_exact (n : Net) (hs : Sync n) (pts : List Pt) :
-    findByPosition (withinTol 0) n pts =
-      .ok (pts.map (fun p => (n.lanelets.filter (fun l => inRing l.poly.ring p)).map (·.id))) := by
-  rw [C06_find_eq_scan (withinTol 0) n hs pts]
-  simp only [withinTol_zero]
-
-/-- `find_lanelet_by_shape(Polygon)` on a synchronised index: exactly the lanelets whose polygon ring meets the
-    query ring. -/
-theorem C06_findShape_poly (n : Net) (hs : Sync n) (vs : List Pt) :
-    findByShape ringMeets n (.prim (.poly vs)) =
-      .ok ((n.lanelets.filter (fun l => ringsMeet l.poly.ring vs)).map (·.id)) :=
-  C06_findShape_eq_scan ringMeets n hs (.poly vs)
-
-/-- `find_lanelet_by_shape(Rectangle)`: the lanelets whose polygon ring meets the ring of the exported vertices, which
-    (`C06_rect_ring_eq_box`) bounds exactly the `l`-by-`w` box at the rectangle's pose. -/
-theorem C06_findShape_rect (n : Net) (hs : Sync n) (l w : Rat) (ctr : Pt) (c s : Rat) :
-    findByShape ringMeets n (.prim (.rect l w ctr c s)) =
-      .ok ((n.lanelets.filter (fun k => ringsMeet k.poly.ring (rectVerts l w ctr c s))).map (·.id)) :=
-  C06_findShape_eq_scan ringMeets n hs (.rect l w ctr c s)
-
-/-- `find_lanelet_by_shape(Circle)`, the code as it is: the lanelets whose polygon meets the disc of radius r/2
-    (known finding `C06/find_lanelet_by_shape/misses/circ`; the property asks for radius r). -/
-theorem C06_findShape_circ (n : Net) (hs : Sync n) (r : Rat) (ctr : Pt) :
-    findByShape ringMeets n (.prim (.circ r ctr)) =
-      .ok ((n.lanelets.filter (fun k => discMeetsRing ctr (r / 2) k.poly.ring)).map (·.id)) :=
-  C06_findShape_eq_scan ringMeets n hs (.circ r ctr)
-
-/-- `Lanelet.get_obstacles` with the exact predicates: an obstacle with a polygon occupancy is reported iff the rings meet. -/
-theorem C06_getObstacles_poly (l : Lanelet) (obs : List Obst) (o : Obst) (vs : List Pt) (ho : o.shape = .prim (.poly vs)) :
-    o ∈ getObstacles ringMeets l obs ↔ o ∈ obs ∧ ringsMeet l.poly.ring vs = true := by
-  simp [getObstacles, List.mem_filter, ho, hits, ringMeets]
-
 /-! ## Part III — obstacles on lanelets -/
 
-/-- `Lanelet.get_obstacles` returns exactly the candidates whose occupancy (any member of a group) meets the polygon. -/
+/-- `Lanelet.get_obstacles` returns exactly the candidates whose occupancy (any member of a group) meets the polygon.
+    (definitional: `List.mem_filter` on the model, carries no proof content; the geometric content is in `ringMeets`,
+    see `C06_ringMeets_cases`, `C06_ringsMeet_iff`, and in the correspondence with `meets := ringMeets`.) -/
 theorem C06_getObstacles_iff (meets : List Pt → Prim → Bool) (l : Lanelet) (obs : List Obst) (o : Obst) :
     o ∈ getObstacles meets l obs ↔ o ∈ obs ∧ hits meets l.poly.ring o.shape = true := by
   simp [getObstacles, List.mem_filter]
